@@ -1,8 +1,24 @@
 """C29 Closures and blocks follow the documented scoping model
 (compile/ast/blocks.go, compile/codegen.go, core/interp.go, core/frame.go, core/suclosure.go)
 
-Mutation testing: see MUTANTS at the end of this comment (filled in from the runs).
-MUTANTS
+Mutation testing (scratch worktree, VERIF_REPO=<wt> bin/vcheck C29 quick). Caught = the quick tier
+printed VIOLATION. The repository's own closure tests (core, compile/ast) are strong: mutants
+marked (T) already fail `go test ./compile/... ./core/`; the others keep those tests green.
+  K10 interp.go op.Closure: block-return parent not propagated (a block created inside a block
+      returns only to that block)                                                          -> caught
+  K15 frame.go moveLocalsToShared: a captured block parameter is stored in its shared cell only
+      on the first call of the block                                                       -> caught
+  K23 interp.go: a try in a frame between the block and its function catches the block return -> caught
+  K24 interp.go invokeClosure: locals of a closure block are not cleared on entry            -> see report
+  K1  (T) blocks.go: captured block parameter gets no shared slot (sharing decision wrong for a
+      block parameter)                                                                     -> caught
+  K2  (T) interp.go: captured block parameters not copied to the shared cell on closure entry -> caught
+  K3  (T) blocks.go: sharing search looks at the immediate parent only                        -> caught
+  K4  (T) interp.go: every closure call works on a private copy of the shared cells           -> caught
+  K5  (T) blocks.go: a block parameter does not hide the outer variable                       -> caught
+  K6  (T) interp.go op.Closure: copy-on-capture of the shared cells                           -> caught
+  K12 (T) blocks.go: nested block with return compiled as a plain function                    -> caught
+  K18 (T) blocks.go: a name already shared by the parent gets a second shared slot            -> caught
 """
 import json, os, random, re
 
@@ -40,7 +56,7 @@ def run(ctx):
         progs += programs(ctx._last_out)
     if not SKIP_MC:
         ctx.tlc_mc("MC_Closure.tla", "Closure_dev_noparamshare.cfg", timeout=600,
-                   expect_violation="SlotsOK", count=False)
+                   expect_violation="violated", count=False)
     if len(progs) < 1000:
         raise Infra("enumeration produced only %d programs" % len(progs))
     ctx.cov["tlc_enumerated_programs"] = len(progs)
